@@ -70,7 +70,7 @@ def _case(draw):
                 args=args, sig_defaults=(draw(st.sampled_from([None, None, "all", "one_required"])) if nargs >= 1 else draw(st.sampled_from([None, None, "all"]))),
                 t0=t0, tf=tf, t_eval=t_eval, te_kind=te_kind,
                 max_step=draw(st.sampled_from([None, None, 0.05, 0.2, 10.0])), first_step=draw(st.sampled_from([None, 0.1, 0.01, 5.0])),
-                tol=tol, dense=draw(st.booleans()), event=draw(st.sampled_from([None, None, "time"])))
+                tol=tol, dense=draw(st.booleans()), event=draw(st.sampled_from([None, None, "time", "terminal"])))
 
 
 def parts(tier):
@@ -142,11 +142,12 @@ def _call(case, baked=False):
     if case["first_step"] is not None:
         opts["first_step"] = case["first_step"]
     events = None
-    if case["event"] == "time":
+    if case["event"] in ("time", "terminal"):
         tc = case["t0"] + 0.6 * (case["tf"] - case["t0"])
 
         def ev(t, y, **kw):
             return t - tc
+        ev.is_terminal = case["event"] == "terminal"
         events = [ev]
     return de.solve_ivp(f, (case["t0"], case["tf"]), y0.copy(), method=_method(case), t_eval=None if case["t_eval"] is None else np.asarray(case["t_eval"], dtype=np.float64),
                         dense_output=case["dense"], events=events, args=None if (baked or not case["args"]) else tuple(case["args"]), **opts), y0
@@ -192,20 +193,32 @@ def check(case):
 
     def exact(tt):
         return (scipy.linalg.expm(Aeff * (tt - case["t0"])) @ y0.reshape(n)).reshape(shape)
-    ymax = max(float(np.max(np.abs(y))), 1e-300)
+    ymax = max(float(np.max(np.abs(y))) if y.size else 0.0, 1e-300)
+    # a terminal event at tc ends the run: output times beyond it are never reached (and the event time is no output time)
+    term = case["event"] == "terminal"
+    tc_ = case["t0"] + 0.6 * (case["tf"] - case["t0"])
+    sg_ = 1.0 if case["tf"] > case["t0"] else -1.0
+    term_hit = term and (case["t_eval"] is None or max(sg_ * np.asarray(case["t_eval"])) > sg_ * tc_ + 1e-9)
+    if term:
+        labels.append("terminal_event:" + ("hit" if term_hit else "not_reached"))
+    t_end = tc_ if term_hit else case["tf"]
     bound = 200 * (case["tol"] + case["tol"] * ymax) * amp * math.sqrt(max(len(osys), 1))
     fixed = mname in ("RK4Solver", "RK4", "ImplicitMidpoint")
     if case["t_eval"] is None:
         if t[0] != case["t0"] or not np.array_equal(y[..., 0], y0):
             viols.append(V("first_column", "t[0]={!r}, y[..., 0] != y0".format(float(t[0])), sig, **attrs))
-        if abs(float(t[-1]) - case["tf"]) > 64 * eps * max(1.0, abs(case["tf"])):
-            viols.append(V("end_time", "last time {!r} for t_span end {!r}".format(float(t[-1]), case["tf"]), sig, **attrs))
+        if abs(float(t[-1]) - t_end) > (1e-9 if term_hit else 64 * eps) * max(1.0, abs(t_end)):
+            viols.append(V("end_time", "last time {!r} for t_span end {!r}{}".format(float(t[-1]), case["tf"], " and a terminal event at {!r}".format(tc_) if term_hit else ""), sig, **attrs))
         if not np.array_equal(t, np.asarray(osys.t)) or not np.array_equal(np.moveaxis(y, -1, 0), np.asarray(osys.y)):
             viols.append(V("columns_vs_system", "the columns of result.y are not the recorded states of result.ode_system", sig, **attrs))
     else:
         want = np.sort(np.asarray(case["t_eval"], dtype=np.float64))
         if case["tf"] < case["t0"]:
             want = want[::-1]           # in the order a backward integration meets them
+        if term_hit:
+            want = want[sg_ * want < sg_ * tc_]
+            if len(want) < len(case["t_eval"]):
+                labels.append("t_eval_cut_by_terminal_event" + (":to_nothing" if len(want) == 0 else ""))
         if len(t) != len(want) or np.any(np.abs(t - want) > 64 * eps * np.maximum(1.0, np.abs(want))):
             viols.append(V("t_eval_times", "t_eval {} requested, result.t = {}".format(want.tolist(), t.tolist()), sig, **attrs))
         elif not fixed:
@@ -228,9 +241,11 @@ def check(case):
         viols.append(V("pass_through", "sol / nfev / njev / status / success of the result differ from those of result.ode_system", sig, **attrs))
     if case["dense"] != (res.sol is not None):
         viols.append(V("dense_flag", "dense_output={} but result.sol is {}".format(case["dense"], "None" if res.sol is None else "set"), sig, **attrs))
-    if case["event"] == "time":
+    if case["event"] in ("time", "terminal"):
         tc = case["t0"] + 0.6 * (case["tf"] - case["t0"])
         sg_ = 1.0 if case["tf"] > case["t0"] else -1.0
+        if term_hit != ("terminated upon" in str(res.status)):
+            viols.append(V("status", "terminal event {}: status {!r}".format("reached" if term_hit else "not reached", res.status), sig, **attrs))
         reached = case["t_eval"] is None or max(sg_ * np.asarray(case["t_eval"])) > sg_ * tc + 1e-9
         evs = list(res.t_events)
         if reached and (len(evs) != 1 or abs(float(evs[0].t) - tc) > 1e-9 * max(1.0, abs(tc))):
@@ -256,9 +271,13 @@ def check(case):
             s.dt = np.sign(s.dt) * np.clip(np.abs(s.dt), 0.0, max_step)
         cbs.append(cap)
     evs = None
-    if case["event"] == "time":
+    if case["event"] in ("time", "terminal"):
         tc = case["t0"] + 0.6 * (case["tf"] - case["t0"])
-        evs = [lambda t, y, **kw: t - tc]
+
+        def ev2(t, y, **kw):
+            return t - tc
+        ev2.is_terminal = term
+        evs = [ev2]
     try:
         if case["t_eval"] is None:
             a.integrate(callback=cbs, events=evs)
@@ -268,9 +287,11 @@ def check(case):
             order_ = np.sort(np.asarray(case["t_eval"], dtype=np.float64))
             for tq in (order_ if case["tf"] > case["t0"] else order_[::-1]):
                 a.integrate(t=tq, callback=cbs, events=evs)
+                if term and "terminated upon" in a.integration_status and a[-1].t != tq:
+                    break               # the run is over: a user of the object API stops asking for output times
                 tl.append(a[-1].t)
                 yl.append(a[-1].y)
-            tt, yy = np.stack(tl), np.stack(yl, axis=-1)
+            tt, yy = (np.stack(tl), np.stack(yl, axis=-1)) if tl else (np.asarray(a.t)[:0], np.moveaxis(np.asarray(a.y)[:0], 0, -1))
         if not np.array_equal(tt, t) or not np.array_equal(yy, y):
             viols.append(V("object_api_twin", "{}: driving OdeSystem with the same settings gives different results (max state difference {:.3e}, {} vs {} columns)".format(
                 mname, float(np.max(np.abs(yy - y))) if yy.shape == y.shape else float("nan"), yy.shape[-1], y.shape[-1]), sig, **attrs))
@@ -279,10 +300,10 @@ def check(case):
             raise
         viols.append(V("object_api_twin_raised", "the object-API twin raised {!r}".format(e), sig + exc_sig(e), **attrs))
     # ---- scipy twin (final time)
-    if not fixed and not viols:
+    if not fixed and not viols and nt > 0:
         sres = scipy.integrate.solve_ivp(lambda tq, v: (Aeff @ v), (case["t0"], float(t[-1])), y0.reshape(n), method="DOP853", rtol=1e-10, atol=1e-12)
         d = float(np.max(np.abs(sres.y[:, -1].reshape(shape) - y[..., -1])))
         if not d <= bound:
             viols.append(V("scipy_twin", "{}: final state differs from scipy.integrate.solve_ivp by {:.3e} (allowed {:.3e})".format(mname, d, bound), sig, **attrs))
-    nontrivial = bool(len(shape) > 1 or case["te_kind"] in ("interior", "unsorted", "repeated") or active)
+    nontrivial = bool(len(shape) > 1 or term_hit or case["te_kind"] in ("interior", "unsorted", "repeated") or active)
     return viols, dict(nontrivial=nontrivial, labels=labels)
